@@ -21,10 +21,10 @@ func (c18Stream) Name() string               { return "c18" }
 func (c18Stream) CaseTimeout() time.Duration { return 60 * time.Second }
 func (c18Stream) NoModel() bool              { return true }
 func (c18Stream) Rule() string {
-	return "TLS configurations {server authentication only, client certificate required and verified (the test directory's WithMTLS configuration)} x {static certificate list, certificate supplied by the GetCertificate callback} x offenders {plaintext LDAP request of each of the seven operations, random bytes, TCP connect without ClientHello, valid TLS without a client certificate, a certificate from a different CA} (1..6 offenders in parallel), concurrently with two conforming clients issuing requests and a third that connects while the offenders (a silent one holds its connection for 1.2 s) are still there; oracle: no handler ever runs for an offender's message (offenders use reserved message ids), every conforming request is answered, and each offender's connection is ended without disturbing the others; non-trivial = at least one offender whose bytes would decode as LDAP, distinct by scenario"
+	return "TLS configurations {server authentication only, client certificate required and verified (the test directory's WithMTLS configuration)} x {static certificate list, certificate supplied by the GetCertificate callback} x offenders {plaintext LDAP request of each of the seven operations, random bytes, TCP connect without ClientHello, valid TLS without a client certificate, a certificate from a different CA, a foreign leaf with the genuine client certificate appended to its chain} (1..6 offenders in parallel), concurrently with two conforming clients issuing requests and a third that connects while the offenders (a silent one holds its connection for 1.2 s) are still there; oracle: no handler ever runs for an offender's message (offenders use reserved message ids), every conforming request is answered, and each offender's connection is ended without disturbing the others; non-trivial = at least one offender whose bytes would decode as LDAP, distinct by scenario"
 }
 
-var c18Offenders = []string{"plain-bind", "plain-search", "plain-modify", "plain-add", "plain-delete", "plain-extended", "plain-unbind", "random", "silent", "nocert", "othercert"}
+var c18Offenders = []string{"plain-bind", "plain-search", "plain-modify", "plain-add", "plain-delete", "plain-extended", "plain-unbind", "random", "silent", "nocert", "othercert", "otherchain"}
 
 func (c18Stream) Generate(rng *rand.Rand, n int, thorough bool) []Case {
 	var cs []Case
@@ -34,7 +34,7 @@ func (c18Stream) Generate(rng *rand.Rand, n int, thorough bool) []Case {
 		offs := make([]string, k)
 		for i := range offs {
 			offs[i] = c18Offenders[rng.Intn(len(c18Offenders))]
-			if mtls == 0 && (offs[i] == "nocert" || offs[i] == "othercert") {
+			if mtls == 0 && (offs[i] == "nocert" || offs[i] == "othercert" || offs[i] == "otherchain") {
 				offs[i] = "plain-bind" // without client-auth these two are conforming clients
 			}
 		}
@@ -159,13 +159,21 @@ func (c18Stream) Impl(c Case) string {
 				if n > 0 && buf[0] == 0x30 {
 					fail("a plaintext %s offender received an LDAP response", kind)
 				}
-			case kind == "nocert" || kind == "othercert":
+			case kind == "nocert" || kind == "othercert" || kind == "otherchain":
 				cfg := cliTLS.Clone() // trusts the server's CA? for mtls use its own pool
 				cfg = goodCli.Clone()
 				cfg.ServerName = "localhost"
 				cfg.Certificates = nil
 				if kind == "othercert" {
 					cfg.Certificates = otherCAClient.Certificates
+				}
+				if kind == "otherchain" {
+					// a leaf and key from another CA, with the genuine client certificate (public part only) appended:
+					// possession of the key is proved for the foreign leaf alone
+					oc := otherCAClient.Certificates[0]
+					chain := append([][]byte{}, oc.Certificate...)
+					chain = append(chain, cliMTLS.Certificates[0].Certificate...)
+					cfg.Certificates = []tls.Certificate{{Certificate: chain, PrivateKey: oc.PrivateKey}}
 				}
 				c, err := tls.DialWithDialer(&net.Dialer{Timeout: 3 * time.Second}, "tcp", sut.addr, cfg)
 				if err != nil {
